@@ -1,14 +1,26 @@
-//! Operations for C02/C03 (see ops.rs). Fill in: return Some(outcome) for the ops this module owns.
+//! Extra entry points for the range-boundary campaign (C02) and the extreme-argument campaign (C03).
 use crate::js::{self, big, int};
 use crate::ops::{utc, FS};
 use crate::proj::*;
 use serde_json::{json, Value};
+use std::str::FromStr;
 use temporal_rs::options::*;
 use temporal_rs::*;
 
+pub fn year_str(y: i64) -> String { if (0..=9999).contains(&y) { format!("{:04}", y) } else { format!("{}{:06}", if y < 0 { '-' } else { '+' }, y.abs()) } }
+
 pub fn exec(op: &str, a: &Value) -> Option<Value> {
-    let _ = a;
-    match op {
-        _ => None,
-    }
+    Some(match op {
+        "PlainDate.toPlainDateTime" => run(|| arg_date(&a["recv"])?.to_plain_date_time(Some(arg_time(&a["time"])?)), p_datetime),
+        "PlainDateTime.fromDateAndTime" => run(|| PlainDateTime::from_date_and_time(arg_date(&a["recv"])?, arg_time(&a["time"])?), p_datetime),
+        // the infallible conversion: the value is projected through getters (its Display may panic)
+        "PlainDateTime.fromPlainDate" => run(|| Ok(PlainDateTime::from(arg_date(&a["recv"])?)), p_datetime),
+        "PlainDate.fromStr" => run(|| { let d = &a["d"]; PlainDate::from_str(&format!("{}-{:02}-{:02}", year_str(js::i(d, "y")), js::i(d, "m"), js::i(d, "d"))) }, p_date),
+        "PlainDateTime.fromStr" => run(|| { let d = &a["dt"]; PlainDateTime::from_str(&format!("{}-{:02}-{:02}T{:02}:{:02}:{:02}.{:03}{:03}{:03}", year_str(js::i(d, "y")), js::i(d, "m"), js::i(d, "d"),
+            js::i(d, "h"), js::i(d, "mi"), js::i(d, "s"), js::i(d, "ms"), js::i(d, "us"), js::i(d, "ns"))) }, p_datetime),
+        "Instant.fromStr" => run(|| { let d = &a["dt"]; Instant::from_str(&format!("{}-{:02}-{:02}T{:02}:{:02}:{:02}.{:03}{:03}{:03}Z", year_str(js::i(d, "y")), js::i(d, "m"), js::i(d, "d"),
+            js::i(d, "h"), js::i(d, "mi"), js::i(d, "s"), js::i(d, "ms"), js::i(d, "us"), js::i(d, "ns"))) }, p_instant),
+        "ZonedDateTime.new" => run(|| ZonedDateTime::try_new(num(&a["ns"]), iso(), utc()), |z| big(z.epoch_nanoseconds().as_i128())),
+        _ => return None,
+    })
 }
